@@ -7,6 +7,7 @@ RULE = ("histories over a growing pool of finished results (rank 1-2 arrays, int
         "values) before and compared after each execution; observed result/input memory sharing compared with the alias sets the "
         "Coq check derives from the regenerated effect IR. non-trivial = a consumer execution after which >= 1 earlier result with "
         ">= 1 non-missing cell is re-inspected")
+RULE += (' The pool also holds results with NaN cells and results without a mask array; single-input n-ary commands are biased towards them.')
 TRUSTED = ["drivers/gen_effects.py: Python syntax -> effect tags, and its tables of numpy/stdlib API facts (which functions return "
            "views, which methods write in place); validated dynamically by the alias comparison, not verified",
            "insure_fuzzy is summarised as KClamp (its body shape is checked by GenCellFacts.clamp_body under C04)"]
